@@ -170,8 +170,13 @@ theorem ginv_right_end (n : Nat) (ct : List Nat) (hct : CtOk n ct) {j : Nat} {pd
     {rb : List Int} (inv : GInv n ct j pda st cct rb) (hj1 : 1 ≤ j) (hjn : j ≤ n) (h0 : cct.getD j 0 ≠ 0)
     (hleft : ¬ j < cct.getD j 0) :
     ∃ above below, pda = above ++ ((cct.getD j 0 : Nat) : Int) :: below ∧
+      (∀ a ∈ above, (a < 0 ∧ -4 ≤ a) ∨ (0 ≤ a ∧ 1 ≤ a.toNat ∧ a.toNat ≤ n ∧ cct.getD a.toNat 0 ≠ j)) ∧
+      (∀ a ∈ (pkOfAbove cct above).reverse, cct.getD j 0 < a ∧ a < j ∧ cct.getD a 0 ≠ 0 ∧ j < ct.getD a 0) ∧
+      ((pkOfAbove cct above).reverse).Pairwise (· < ·) ∧
       ∀ res, popLoop false ct.toArray j pda 0 (-1) st = .ok res →
         res.1 = true ∧ res.2.2.cct = cct.toArray ∧ res.2.2.auxpk = (pkOfAbove cct above).reverse ∧
+        (res.2.2.reached = st.reached + 1 ∧ res.2.2.ss.size = n ∧ res.2.2.rb = st.rb ∧
+          ∀ p, 1 ≤ p → p < ct.getD p 0 → cct.getD p 0 = 0 → ssAt res.2.2.ss (p-1) = ssAt st.ss (p-1)) ∧
         ∃ mf', res.2.1 = mf' :: below ∧
           ∀ st2, ((pkOfAbove cct above).reverse = [] ∧ st2 = res.2.2) ∨
                  pkLoop ct.toArray j (pkOfAbove cct above).reverse ((cct.getD j 0 : Nat) : Int)
@@ -207,7 +212,24 @@ theorem ginv_right_end (n : Nat) (ct : List Nat) (hct : CtOk n ct) {j : Nat} {pd
   have hbelow_lt : ∀ b ∈ below, 0 ≤ b → b < (cct.getD j 0 : Int) := by
     intro b hb h0b
     exact (List.pairwise_cons.mp hsorted.2.1).1 b (by simp [List.mem_filter, hb, h0b])
-  refine ⟨above, below, hsplit, ?_⟩
+  -- the items of the batch
+  have hitems : ∀ a ∈ (pkOfAbove cct above).reverse,
+      cct.getD j 0 < a ∧ a < j ∧ cct.getD a 0 ≠ 0 ∧ j < ct.getD a 0 := by
+    intro a ha
+    rw [List.mem_reverse, mem_pkOfAbove] at ha
+    have hp := habove_pos (a : Int) ha.1 (by omega)
+    have hmem : (a : Int) ∈ pda := by rw [hsplit]; simp [ha.1]
+    have hge := inv.paired (a : Int) hmem (by omega) (by simpa using ha.2)
+    simp only [Int.toNat_natCast] at hge hp
+    have hs := cct_sym hct inv.cok a ha.2
+    have hne : cct.getD a 0 ≠ j := by
+      intro e; rw [e] at hs; omega
+    refine ⟨by omega, hp.2, ha.2, ?_⟩
+    rw [← hs.1]; omega
+  have hitsorted : ((pkOfAbove cct above).reverse).Pairwise (· < ·) := by
+    rw [List.pairwise_reverse]
+    exact pkOfAbove_sorted cct above hsorted.1
+  refine ⟨above, below, hsplit, habove, hitems, hitsorted, ?_⟩
   intro res hres
   rw [hsplit] at hres
   obtain ⟨found, pda1, st1⟩ := res
@@ -218,10 +240,8 @@ theorem ginv_right_end (n : Nat) (ct : List Nat) (hct : CtOk n ct) {j : Nat} {pd
   have sp := popLoopG n ct cct hct.1 inv.cok.len j (cct.getD j 0) below ⟨hj1, hjn⟩ hi hij hcti hctj above 0 (-1) st _
     habove (by omega) (by omega) inv.hcct inv.sssize (by rw [inv.noaux]; simp) hres
   simp only at sp
-  obtain ⟨hfound, ⟨mf', hpda1, hmf1, hmf2⟩, hcct1, hpk1, haux1, hsz1, hrb1, hbr, hsame, hunp, _⟩ := sp
+  obtain ⟨hfound, ⟨mf', hpda1, hmf1, hmf2⟩, hcct1, hpk1, haux1, hsz1, hrb1, hbr, hsame, hunp, hreach1⟩ := sp
   rw [inv.nopk, List.append_nil] at hpk1
-  refine ⟨hfound, hcct1, hpk1, mf', hpda1, ?_⟩
-  intro st2 hst2
   -- the letter invariant survives the bracket / unpaired-symbol writes of the pop loop
   have hpkcells : ∀ p, 1 ≤ p → p < ct.getD p 0 → cct.getD p 0 = 0 →
       ssAt st1.ss (p-1) = ssAt st.ss (p-1) ∧ ssAt st1.ss (ct.getD p 0 - 1) = ssAt st.ss (ct.getD p 0 - 1) := by
@@ -244,6 +264,8 @@ theorem ginv_right_end (n : Nat) (ct : List Nat) (hct : CtOk n ct) {j : Nat} {pd
                                        rw [this]; omega)
     · apply hsame <;> first | omega | (left; have : ct.getD p 0 - 1 + 1 = ct.getD p 0 := by omega
                                        rw [this, hpp.2.2.2.2.1]; omega)
+  refine ⟨hfound, hcct1, hpk1, ⟨hreach1, hsz1, hrb1, fun p a b c => (hpkcells p a b c).1⟩, mf', hpda1, ?_⟩
+  intro st2 hst2
   have linv1 : LInv ct cct st1.ss rb := {
     rblen := inv.linv.rblen
     lab := by
@@ -257,23 +279,6 @@ theorem ginv_right_end (n : Nat) (ct : List Nat) (hct : CtOk n ct) {j : Nat} {pd
       have hc' := hpkcells p' (by omega) hp2' hp3'
       rw [hc.1, hc'.1] at hsm
       exact inv.linv.non p p' hp1 hp2 hp3 hp2' hp3' hlt hlt2 hsm }
-  -- the items of the batch
-  have hitems : ∀ a ∈ (pkOfAbove cct above).reverse,
-      cct.getD j 0 < a ∧ a < j ∧ cct.getD a 0 ≠ 0 ∧ j < ct.getD a 0 := by
-    intro a ha
-    rw [List.mem_reverse, mem_pkOfAbove] at ha
-    have hp := habove_pos (a : Int) ha.1 (by omega)
-    have hmem : (a : Int) ∈ pda := by rw [hsplit]; simp [ha.1]
-    have hge := inv.paired (a : Int) hmem (by omega) (by simpa using ha.2)
-    simp only [Int.toNat_natCast] at hge hp
-    have hs := cct_sym hct inv.cok a ha.2
-    have hne : cct.getD a 0 ≠ j := by
-      intro e; rw [e] at hs; omega
-    refine ⟨by omega, hp.2, ha.2, ?_⟩
-    rw [← hs.1]; omega
-  have hitsorted : ((pkOfAbove cct above).reverse).Pairwise (· < ·) := by
-    rw [List.pairwise_reverse]
-    exact pkOfAbove_sorted cct above hsorted.1
   -- the batch
   have hpost : PkPost n ct cct (pkOfAbove cct above).reverse st1 st2 := by
     rcases hst2 with ⟨hnil, rfl⟩ | hrun
@@ -482,11 +487,11 @@ theorem c2wMainG (n : Nat) (ct : List Nat) (hct : CtOk n ct) :
       · rw [if_pos hleft] at h
         exact ih (j+1) _ st st' cct rb (by omega) (by omega) (by omega) (ginv_push hct inv hj1 (Or.inr hleft)) h
       · rw [if_neg hleft] at h
-        obtain ⟨above, below, _, hstep⟩ := ginv_right_end n ct hct inv hj1 hjn h0 hleft
+        obtain ⟨above, below, _, _, _, _, hstep⟩ := ginv_right_end n ct hct inv hj1 hjn h0 hleft
         split at h
         · cases h
         · rename_i res hres
-          obtain ⟨hfound, hcct1, hpk1, mf', hpda1, hnext⟩ := hstep res hres
+          obtain ⟨hfound, hcct1, hpk1, _, mf', hpda1, hnext⟩ := hstep res hres
           obtain ⟨found, pda1, st1⟩ := res
           simp only at hfound hcct1 hpk1 hpda1 hnext h
           subst hfound hpda1
